@@ -3,6 +3,7 @@ package props
 import (
 	"crypto/x509"
 	"fmt"
+	"github.com/zitadel/saml/pkg/provider/serviceprovider"
 	"math/rand"
 	"net/url"
 	"strings"
@@ -122,6 +123,16 @@ func (sc *cbScenario) install(w *sim.World) {
 		sc.S.SetDone(sc.Done)
 		w.PutRequest(sc.S)
 		w.SetApp(sc.S.AppID, sc.Audience)
+		// the audience is a registered service provider whose own metadata may say anything about signed assertions
+		// (the callback of the unchanged library never looks at it); a registration that fails is left out
+		if len(sc.S.ID)%2 == 0 {
+			d := stdSP(0)
+			d.EntityID = sc.Audience
+			d.WantAssertionsSigned = []string{"false", "0", "true", ""}[len(sc.S.ID)/2%4]
+			if sp, err := serviceprovider.NewServiceProvider(sc.S.AppID, &serviceprovider.Config{Metadata: d.XML()}, w.LoginURL); err == nil && sp.GetEntityID() == sc.Audience {
+				_, _ = w.AddSP(sc.S.AppID, d.XML())
+			}
+		}
 	}
 	if sc.U != nil {
 		w.AddUser(sc.U)
